@@ -14,6 +14,7 @@ import (
 	"strings"
 	"sync"
 	"time"
+	"unicode/utf8"
 
 	"github.com/goccmack/gocc/verifx/internal/gram"
 	"github.com/goccmack/gocc/verifx/internal/run"
@@ -38,6 +39,7 @@ type Witness struct {
 	Grammar  *gram.Grammar `json:"grammar,omitempty"`
 	Text     string        `json:"grammar_text,omitempty"`
 	Text2    string        `json:"grammar_text2,omitempty"`
+	Raw      []byte        `json:"grammar_bytes,omitempty"` // exact bytes of Text when it is not valid UTF-8 (JSON strings cannot hold them)
 	Flags    []string      `json:"flags,omitempty"`
 	Input    []byte        `json:"input,omitempty"`
 	InputStr string        `json:"input_str,omitempty"` // human-readable copy of Input
@@ -60,6 +62,14 @@ type HistItem struct {
 	Render bool     `json:"render,omitempty"` // the caller renders the error (Error(), String(), DescribeExpected)
 }
 
+// SourceText is the exact grammar text of the case.
+func (w *Witness) SourceText() string {
+	if w.Raw != nil {
+		return string(w.Raw)
+	}
+	return w.Text
+}
+
 // Key identifies a case exactly (grammar + flags + input), never by symptom.
 func (w *Witness) Key() string {
 	h := sha256.New()
@@ -69,7 +79,7 @@ func (w *Witness) Key() string {
 	if w.Grammar != nil {
 		enc.Encode(w.Grammar)
 	} else {
-		enc.Encode(w.Text)
+		enc.Encode([]byte(w.SourceText()))
 		enc.Encode(w.Text2)
 	}
 	enc.Encode(w.Flags)
@@ -224,6 +234,9 @@ func (c *Ctx) Violation(w *Witness) {
 		if w.Text == "" {
 			w.Text = w.Grammar.Render(nil)
 		}
+	}
+	if w.Grammar == nil && w.Raw == nil && !utf8.ValidString(w.Text) {
+		w.Raw = []byte(w.Text)
 	}
 	if w.Input != nil && w.InputStr == "" {
 		w.InputStr = strconv.QuoteToASCII(string(w.Input))
